@@ -41,7 +41,7 @@ pub struct Entry {
 impl Entry {
     /// Returns the range of tile ids this entry is valid for.
     pub const fn tile_id_range(&self) -> Range<u64> {
-        self.tile_id..self.tile_id + self.run_length as u64
+        self.tile_id..self.tile_id.saturating_add(self.run_length as u64)
     }
 
     /// Returns `true` if this entry is for a leaf directory and
@@ -95,6 +95,13 @@ impl<'a> IntoIterator for &'a Directory {
     }
 }
 
+/// Upper bound for the number of entries memory is reserved for before they were actually read.
+const MAX_PREALLOCATED_ENTRIES: usize = 1 << 16;
+
+fn invalid_data(message: &'static str) -> std::io::Error {
+    std::io::Error::new(std::io::ErrorKind::InvalidData, message)
+}
+
 impl Directory {
     #[duplicate_item(
         fn_name                  cfg_async_filter       input_traits                         decompress(compression, binding)              read_varint(type, reader)                  async;
@@ -113,14 +120,17 @@ impl Directory {
 
         let num_entries = read_varint([usize], [reader])?;
 
-        let mut entries = Vec::<Entry>::with_capacity(num_entries);
+        // `num_entries` is untrusted input: do not reserve more than a sane amount up front
+        let mut entries = Vec::<Entry>::with_capacity(num_entries.min(MAX_PREALLOCATED_ENTRIES));
 
         // read tile_id
         let mut last_id = 0u64;
         for _ in 0..num_entries {
             let tmp = read_varint([u64], [reader])?;
 
-            last_id += tmp;
+            last_id = last_id
+                .checked_add(tmp)
+                .ok_or_else(|| invalid_data("Tile id of a directory entry overflows."))?;
             entries.push(Entry {
                 tile_id: last_id,
                 length: 0,
@@ -153,9 +163,14 @@ impl Directory {
             let val = read_varint([u64], [reader])?;
 
             entries[i].offset = if i > 0 && val == 0 {
-                entries[i - 1].offset + u64::from(entries[i - 1].length)
+                entries[i - 1]
+                    .offset
+                    .checked_add(u64::from(entries[i - 1].length))
+                    .ok_or_else(|| invalid_data("Offset of a directory entry overflows."))?
             } else {
-                val - 1
+                val.checked_sub(1).ok_or_else(|| {
+                    invalid_data("First directory entry must have an explicit offset.")
+                })?
             };
         }
 
@@ -202,12 +217,18 @@ impl Directory {
             let val = if index > 0 && entry.offset == next_byte {
                 0
             } else {
-                entry.offset + 1
+                entry
+                    .offset
+                    .checked_add(1)
+                    .ok_or_else(|| invalid_data("Offset of a directory entry overflows."))?
             };
 
             write_varint([writer], [val])?;
 
-            next_byte = entry.offset + u64::from(entry.length);
+            next_byte = entry
+                .offset
+                .checked_add(u64::from(entry.length))
+                .ok_or_else(|| invalid_data("Offset of a directory entry overflows."))?;
         }
 
         add_await([writer.flush()])?;
